@@ -258,6 +258,38 @@ def run(prog, check):
     for rf_, ok_, why_ in registration_always_recorded(prog, 'RegisteredCashFlows', 3):
         check.saw(rf_)
         check.ob('C18.R3', '%s::flow-registration-always-recorded' % rf_.key, ok_, rf_.where, why_, 'two economies with the same sector codes, each registering the same flow')
+    # a Region without a currency joins the zone of the country declared just before it, whatever else the model holds:
+    # the default currency is re-set by every country that is added
+    from ..inline import flatten as _fl
+    from .. import cfg as _cfg
+    writers_ = []
+    for f_ in prog.all_functions():
+        if f_.name == '__init__' or '/deprecated/' in f_.module.rel:
+            continue
+        for n_ in ast.walk(f_.node):
+            if isinstance(n_, ast.Assign) and any(isinstance(t_, ast.Attribute) and t_.attr == 'DefaultCurrency' for t_ in n_.targets):
+                writers_.append(f_)
+    writers_ = list({f_.key: f_ for f_ in writers_}.values())
+    readers_ = any(isinstance(n_, ast.Attribute) and n_.attr == 'DefaultCurrency' and isinstance(n_.ctx, ast.Load)
+                   for f_ in prog.all_functions() for n_ in ast.walk(f_.node))
+    if readers_:
+        if len(writers_) != 1:
+            raise AnalysisError('expected one function setting the default currency, found %s' % [f_.qualname for f_ in writers_])
+        wf_raw = writers_[0]
+        wf = _fl(prog, wf_raw)
+        gw = _cfg.build(wf)
+        stores_ = [nd for nd in gw.stmt_nodes() if nd.kind == 'stmt' and isinstance(nd.ast, ast.Assign) and any(
+            isinstance(t_, ast.Attribute) and t_.attr == 'DefaultCurrency' for t_ in nd.ast.targets)]
+        params_ = wf.params()[1:]
+        val_ok = all(isinstance(nd.ast.value, ast.Attribute) and nd.ast.value.attr == 'Currency' and isinstance(nd.ast.value.value, ast.Name)
+                     and nd.ast.value.value.id in params_ for nd in stores_)
+        always_ = bool(stores_) and gw.must_pass(gw.entry, gw.exit, stores_)
+        check.saw(wf_raw)
+        check.ob('C18.R3', '%s::default-currency-follows-last-country' % wf_raw.key, always_ and val_ok, wf_raw.where,
+                 'every country added makes its currency the default for the regions declared after it' if (always_ and val_ok) else
+                 ('a country can be added without becoming the source of the default currency: a region declared after it joins the zone of an '
+                  'earlier economy of the model' if not always_ else 'the default currency is not the currency of the country being added'),
+                 'two federations (country + region without explicit currency) with different currencies in one model')
     check.floor('C18.R3', 8)
     check.floor('C18.R4', 2)
     check.floor('C18.R5', 1)
